@@ -203,6 +203,13 @@ class _SimFile:
         if self.buf and not self.disk.dead:
             self._flush("flush")
 
+    def writable(self):
+        return True
+
+    def __getattr__(self, name):
+        # name, mode, fileno, ... behave like the real file object's
+        return getattr(self.raw, name)
+
     def __enter__(self):
         return self
 
